@@ -58,6 +58,14 @@ class NodeVisitor(visitor.PartialVisitor[ast.AST]):
         if body is not None:
             for child in body:
                 yield child
+        if isinstance(node, (ast.Try, ast.For, ast.AsyncFor, ast.While)):
+            # The else clause of a try statement or of a loop runs when the body 
+            # completes normally, a finally clause always does: what they define is defined.
+            for child in node.orelse:
+                yield child
+            if isinstance(node, ast.Try):
+                for child in node.finalbody:
+                    yield child
 
 class NodeVisitorExt(visitor.VisitorExt[ast.AST]):
     ...
